@@ -42,6 +42,7 @@ type bodyRun struct {
 	writeRanges []writeRange
 	cells map[types.Object]ssa.Value
 	cellsByName map[string][]*ssa.Alloc
+	sites map[string][]ssa.CallInstruction
 }
 
 func mkKS(key, sort string) keySort { return keySort{key: key, sort: sort} }
@@ -756,27 +757,21 @@ func (br *bodyRun) envAt(b *ssa.BasicBlock, idx int, st *State, phiOv map[*ssa.P
 			fmt.Sscanf(site[j+1:], "%d", &ord)
 			name = site[:j]
 		}
-		k := 0
-		for _, bb := range br.fn.Blocks {
-			for _, in2 := range bb.Instrs {
-				if c2, ok := in2.(ssa.CallInstruction); ok && calleeName(c2) == name {
-					k++
-					if k == ord {
-						v := c2.Value()
-						if v == nil {
-							return TV{}, false
-						}
-						rv, ok := fc.vals[v]
-						if !ok {
-							// not executed before this point: an unconstrained value
-							return TV{fc.fresh(v.Type(), "noret"), v.Type()}, true
-						}
-						// meaningful on the paths through that call site: guard with called(..)
-						// when the site does not dominate this point
-						return TV{rv, v.Type()}, true
-					}
-				}
+		sites := br.callSites(name)
+		if ord >= 1 && ord <= len(sites) {
+			c2 := sites[ord-1]
+			v := c2.Value()
+			if v == nil {
+				return TV{}, false
 			}
+			rv, ok := fc.vals[v]
+			if !ok {
+				// not executed before this point: an unconstrained value
+				return TV{fc.fresh(v.Type(), "noret"), v.Type()}, true
+			}
+			// meaningful on the paths through that call site: guard with called(..)
+			// when the site does not dominate this point
+			return TV{rv, v.Type()}, true
 		}
 		return TV{}, false
 	}
